@@ -6,10 +6,13 @@
 (* min_source / delete_min_insert until every cursor is exhausted); every  *)
 (* min_source() it returns is logged.  LBuild / LPop lines are consumed by *)
 (* the construction operators and the Pop action of LoserTree.tla itself.  *)
-(* Tier A (C06): the source returned is the one with the smallest head     *)
-(* key, the smallest index among equals (what the traversal order of the   *)
-(* container rests on).  Tier B: the private array, logged through hook H5 *)
-(* after every call, equals the model's `losers` cell by cell.             *)
+(* Tier A (C06): the source returned holds a smallest head key (no merge    *)
+(* that yields keys in order can do otherwise).  Tier B: it is the         *)
+(* smallest index among the sources with that key (the convention by which *)
+(* the most recent level wins; another consistent convention would not     *)
+(* break C06, which the container-level traces decide) and the private     *)
+(* array, logged through hook H5 after every call, equals the model's      *)
+(* `losers` cell by cell.                                                  *)
 (***************************************************************************)
 EXTENDS Naturals, Integers, Sequences, FiniteSets, TLC, Json, IOUtils
 Trc == ndJsonDeserialize(IOEnv.TRACE)
@@ -25,6 +28,10 @@ V(ok, prop, what) == IF ok THEN 0 ELSE (IF Viol(prop, what) THEN 1 ELSE 1)
 D(ok, what) == IF ok THEN 0 ELSE (IF Drift(what) THEN 1 ELSE 1)
 
 CellsOf(L, kk) == [i \in 1..(2 * kk) |-> <<L[i - 1].key, L[i - 1].source>>]
+\* the head key of source s is minimal among the live sources (in the state the operators are evaluated in)
+HeadIsMin(src) == src \in LT!Live /\ \A t \in LT!Live : LT!HeadOf(src) <= LT!HeadOf(t)
+\* the same in the successor state, for the source named by the CURRENT line (a bound variable is not primed, `Ev` would be)
+HeadIsMinNext(e) == \E m \in {e.min} : HeadIsMin(m)'
 TInit == /\ l = 2 /\ x = -1 /\ n = 1 /\ seqs = [s \in {0} |-> <<0>>] /\ pos = [s \in {0} |-> 2] /\ k = 1
          /\ losers = [i \in 0..1 |-> [key |-> 0, source |-> 0]] /\ phase = "ready" /\ nextIns = 1 /\ insync = FALSE
          /\ nviol = 0 /\ ndrift = 0 /\ cnt = [trees |-> 0, pops |-> 0, ties |-> 0, sources_max |-> 0] /\ done = FALSE
@@ -38,8 +45,8 @@ TBuild ==
   /\ k' = LT!NextPow2(Ev.n) /\ phase' = "ready" /\ nextIns' = Ev.n
   /\ losers' = LT!InitTree(InsAll(LT!Constructed(Ev.n), LT!NextPow2(Ev.n), 0, Ev.seqs), LT!NextPow2(Ev.n))
   /\ insync' = (Ev.min = losers'[0].source)
-  /\ nviol' = nviol + V(Ev.min = LT!MinSrc', "C06", "loser_tree_first_min_source_is_not_the_smallest_head_of_the_most_recent_level")
-  /\ ndrift' = ndrift + D(Ev.min = losers'[0].source /\ Ev.cells = CellsOf(losers', k'), "array_after_init_differs_from_the_model")
+  /\ nviol' = nviol + V(HeadIsMinNext(Ev), "C06", "loser_tree_first_min_source_does_not_hold_a_smallest_head")
+  /\ ndrift' = ndrift + D(Ev.min = LT!MinSrc' /\ Ev.min = losers'[0].source /\ Ev.cells = CellsOf(losers', k'), "array_or_tie_break_after_init_differs_from_the_model")
   /\ cnt' = [cnt EXCEPT !.trees = @ + 1, !.sources_max = IF Ev.n > @ THEN Ev.n ELSE @]
   /\ UNCHANGED <<x, done>>
 \* delete_min_insert(next key of the popped source or nullptr); min_source() unless everything is exhausted (min = -1)
@@ -48,9 +55,10 @@ TPop ==
   /\ IF insync /\ LT!Live # {}
      THEN /\ LT!Pop
           /\ LET exhausted == LT!Live' = {} IN
-             /\ nviol' = nviol + V(Ev.src = losers[0].source /\ (exhausted => Ev.min = -1) /\ (~exhausted => Ev.min = LT!MinSrc'),
-                                   "C06", "loser_tree_min_source_is_not_the_smallest_head_of_the_most_recent_level")
-             /\ ndrift' = ndrift + D((exhausted \/ Ev.min = losers'[0].source) /\ Ev.cells = CellsOf(losers', k), "array_after_delete_min_insert_differs_from_the_model")
+             /\ nviol' = nviol + V((exhausted => Ev.min = -1) /\ (~exhausted => HeadIsMinNext(Ev)),
+                                   "C06", "loser_tree_min_source_does_not_hold_a_smallest_head")
+             /\ ndrift' = ndrift + D(Ev.src = losers[0].source /\ (exhausted \/ (Ev.min = LT!MinSrc' /\ Ev.min = losers'[0].source)) /\ Ev.cells = CellsOf(losers', k),
+                                     "array_or_tie_break_after_delete_min_insert_differs_from_the_model")
              /\ insync' = (Ev.src = losers[0].source /\ (exhausted \/ Ev.min = losers'[0].source))
              /\ cnt' = [cnt EXCEPT !.pops = @ + 1,
                                    !.ties = @ + (IF \E t \in LT!Live : t # losers[0].source /\ LT!HeadOf(t) = LT!HeadOf(losers[0].source) THEN 1 ELSE 0)]
